@@ -5,6 +5,7 @@ import (
 	"context"
 	"errors"
 	"fmt"
+	"net/http"
 	"net/url"
 
 	"github.com/oauth2-proxy/oauth2-proxy/v7/pkg/apis/middleware"
@@ -77,6 +78,9 @@ func (p *ProviderData) Redeem(ctx context.Context, redirectURL, code, codeVerifi
 		Do()
 	if result.Error() != nil {
 		return nil, result.Error()
+	}
+	if result.StatusCode() != http.StatusOK {
+		return nil, fmt.Errorf("got %d from %q %s", result.StatusCode(), p.RedeemURL.String(), result.Body())
 	}
 
 	// blindly try json and x-www-form-urlencoded
